@@ -229,6 +229,7 @@ namespace
         std::vector<long> iterCount;       // per impl
         std::vector<char> flags, everTrue;  // per flag
         std::vector<long long> trueSince;  // per flag: sim time since which it has been continuously true (-1: false)
+        std::vector<long long> falseSince;  // per flag: sim time since which it has been continuously false (-1: true)
         bool exactSol = false, exactPending = false;  // pending: an add of an exact solution is in flight
         int pendingImpl = -1;                          // a terminate() through cost convergence is in flight
         // cost convergence (one node at most)
@@ -534,6 +535,7 @@ sim::CaseResult PtcSim::run(const sim::Options &o, const Json &plan)
     M.flags.assign((size_t)nflags, 0);
     M.everTrue.assign((size_t)nflags, 0);
     M.trueSince.assign((size_t)nflags, -1);
+    M.falseSince.assign((size_t)nflags, 0);
 
     ss::onDeadlock = [&](const std::string &what) {
         res.violate("C18.deadlock", what);
@@ -681,9 +683,14 @@ sim::CaseResult PtcSim::run(const sim::Options &o, const Json &plan)
                 M.everTrue[(size_t)f] = 1;
                 if (M.trueSince[(size_t)f] < 0)
                     M.trueSince[(size_t)f] = now;
+                M.falseSince[(size_t)f] = -1;
             }
             else
+            {
                 M.trueSince[(size_t)f] = -1;
+                if (M.falseSince[(size_t)f] < 0)
+                    M.falseSince[(size_t)f] = now;
+            }
             disturbed = true;
         }
         else if (k == "advance")
@@ -787,16 +794,20 @@ sim::CaseResult PtcSim::run(const sim::Options &o, const Json &plan)
                     bool mustTrue = term || (M.flags[(size_t)n.flag] && M.trueSince[(size_t)n.flag] >= 0 &&
                                              now - M.trueSince[(size_t)n.flag] > (long long)(n.period * 1e9) + 4000000);
                     bool mustFalse = !term && !M.everTrue[(size_t)n.flag];
-                    // predicate currently false for longer than a period: the cached value must have followed
-                    bool falseLong = !term && !M.flags[(size_t)n.flag];
+                    // predicate false for longer than a period: the reported value must have followed it down
+                    bool falseLong = !term && !M.flags[(size_t)n.flag] && M.falseSince[(size_t)n.flag] >= 0 &&
+                                     now - M.falseSince[(size_t)n.flag] > (long long)(n.period * 1e9) + 4000000;
                     if (mustTrue && !v)
                         res.violate("C18.periodic-not-true-one-period-after-predicate",
                                     fmt("node %zu: predicate true for %.4f s (period %.4f s) but eval() is false after settling",
                                         i, (double)(now - M.trueSince[(size_t)n.flag]) / 1e9, n.period));
                     else if (mustFalse && v)
                         res.violate("C18.periodic-true-without-cause", fmt("node %zu: eval() true although the predicate was never true and terminate() was never called", i));
-                    else if (falseLong && v && now - n.t0 > 0)
-                        res.probes["periodic-cached-true-after-predicate-went-false(not judged)"]++;
+                    else if (falseLong && v)
+                        res.violate("C18.periodic-still-true-one-period-after-predicate-went-false",
+                                    fmt("node %zu: predicate false for %.4f s (period %.4f s), terminate() never called, but eval() is true after settling",
+                                        i, (double)(now - M.falseSince[(size_t)n.flag]) / 1e9, n.period));
+                    res.probes["periodic-followed-predicate-down-judged"] += falseLong && M.everTrue[(size_t)n.flag];
                     res.probes["periodic-liveness-judged"] += mustTrue;
                 }
                 else if (n.kind == "timedp")
